@@ -411,6 +411,32 @@ func c01(r *mon.Run) {
 			res, _, _ := cx.runOne(tree, expr, doc)
 			c01Account(t, tree, expr, doc, res, i)
 		}})
+	// JSON literals with white space inside the backticks, before and after the value (JSON allows it around every value): the
+	// literal denotes the value, whatever kind it is
+	litVals := []string{"true", "false", "null", "1", "-0.5", "1e2", "\"s\"", "\"\"", "\" \"", "[]", "[1, 2]", "[ ]", "{}", "{\"a\": 1}", "{ }", "[true ]", "\"true \"", "0"}
+	litPads := []string{"", " ", "\t", "\n", "\r", "  ", " \n\t", "\r\n"}
+	ws = append(ws, mon.Workload{Name: "literals-with-white-space-inside-the-delimiters", N: len(litVals) * len(litPads) * len(litPads) * 4, Batch: 500,
+		Do: func(i int, t *mon.Tally) {
+			form := i % 4
+			k := i / 4
+			v, pre, post := litVals[k/(len(litPads)*len(litPads))], litPads[k/len(litPads)%len(litPads)], litPads[k%len(litPads)]
+			lit := gen.LitJSON(pre + v + post)
+			var tree *gen.Expr
+			switch form {
+			case 0:
+				tree = lit
+			case 1:
+				tree = gen.Chain(gen.MultiList(lit, gen.Field("a")), gen.StIndex(0))
+			case 2:
+				tree = gen.Pipe(gen.Field("a"), gen.MultiHash(keyA("k"), []*gen.Expr{lit}))
+			default:
+				tree = gen.MultiList(lit, gen.LitJSON(v), gen.Raw(v+post))
+			}
+			expr := gen.Spell(tree)
+			cx := &caseCtx{r, t, "literals-with-white-space-inside-the-delimiters", i}
+			res, _, _ := cx.runBoth(tree, expr, map[string]interface{}{"a": float64(1)})
+			c01Account(t, tree, expr, nil, res, i)
+		}})
 	ws = append(ws, kindPairsWorkload(r, "C01"))
 	r.Exec(ws...)
 }
